@@ -18,6 +18,10 @@ BIN = os.path.join(FUZZ, "target", "x86_64-unknown-linux-gnu", "release")
 
 
 def build(log):
+    if os.environ.get("VERIF_NO_FUZZ"):
+        # development aid for sweeps over the generated parts only (never set by a registered command)
+        log("fuzz phase switched off by VERIF_NO_FUZZ")
+        return False
     env = dict(os.environ, CARGO_NET_OFFLINE="true")
     p = subprocess.run(["cargo", "+nightly", "fuzz", "build", "--fuzz-dir", "."], cwd=FUZZ, env=env, stdout=subprocess.PIPE,
                        stderr=subprocess.STDOUT, text=True)
@@ -42,7 +46,7 @@ def campaign(ctx, target, prop, seed_globs, runs, dict_file=None, max_len=4096, 
     """Runs one libFuzzer campaign; returns dict(stats). Reports a violation through ctx for each crashing input."""
     exe = os.path.join(BIN, target)
     if not os.path.exists(exe):
-        return {"skipped": "target binary missing"}
+        return {"skipped": "target binary missing"}, []
     work = os.path.join(TARGET, "fuzz-work", "%s-%d-%d" % (target, ctx.seed, ctx.w))
     shutil.rmtree(work, ignore_errors=True)
     corpus = os.path.join(work, "corpus")
